@@ -26,8 +26,11 @@ def c01_jobs(tier, seed):
     if tier == 'quick':
         return [TraceJob(SMALL, 'mul', shards=12, args=['--cases', 720]),
                 TraceJob(NOSSE, 'mul', shards=4, args=['--cases', 240])]
-    return [TraceJob(SMALL, 'mul', shards=32, timeout=3000), TraceJob(HOST, 'mul', shards=16, args=['--cases', 1500], timeout=3000),
-            TraceJob(NOSSE, 'mul', shards=16, args=['--cases', 1500], timeout=3000)]
+    return [TraceJob(SMALL, 'mul', shards=32, timeout=3400), TraceJob(HOST, 'mul', shards=16, args=['--cases', 1500], timeout=3400),
+            TraceJob(NOSSE, 'mul', shards=16, args=['--cases', 1500], timeout=3400),
+            TraceJob(SMALL, 'mul', shards=32, timeout=3400, args=['--seed', seed + 1000], label='mul@%s#s2' % SMALL),
+            TraceJob('c128_sse_cache_seq', 'mul', shards=16, args=['--cases', 3000, '--seed', seed + 3000], timeout=3400, label='mul@c128'),
+            TraceJob('c256_nosse_cache_seq', 'mul', shards=16, args=['--cases', 3000, '--seed', seed + 4000], timeout=3400, label='mul@c256')]
 
 
 def simple_jobs(family, qcases, qshards=12, tshards=32, nosse_frac=3, extra=None):
